@@ -75,6 +75,34 @@ fn check_thick(l: &Line, w: u32, thin: &[Point], align: StrokeAlignment) -> Resu
     }
     let set: BTreeSet<(i32, i32)> = px.iter().map(|p| (p.x, p.y)).collect();
     ensure!(set.len() == px.len(), "thick:duplicate_pixel", "{} pixels but only {} distinct (width {})", px.len(), set.len(), w);
+    // the stroked line is the same set whether it is taken from `pixels()` or drawn with `draw()`, also onto a
+    // target whose (reported, not enforced) bounding box is missed by the thin centre line, touches only one
+    // side of the stroke, or lies somewhere inside it
+    if px.len() <= 20_000 {
+        use crate::targets::NativeT;
+        use embedded_graphics::Drawable;
+        let sb = l.into_styled(style).bounding_box();
+        let h = (s.x as i64 * 31 + s.y as i64 * 17 + e.x as i64 * 7 + e.y as i64 * 3 + w as i64).unsigned_abs();
+        let half = (w as i32 + 1) / 2;
+        let tb = match h % 6 {
+            0 => Rectangle::new(Point::new(-1_000_000, -1_000_000), Size::new(2_000_000, 2_000_000)),
+            // a window that starts just beside the centre line, on either side, horizontally or vertically
+            1 => Rectangle::new(Point::new(s.x.min(e.x) - 2, s.y.max(e.y) + 1), Size::new(sb.size.width + 4, half as u32 + 3)),
+            2 => Rectangle::new(Point::new(s.x.min(e.x) - 2, s.y.min(e.y) - half - 3), Size::new(sb.size.width + 4, half as u32 + 3)),
+            3 => Rectangle::new(Point::new(s.x.max(e.x) + 1, s.y.min(e.y) - 2), Size::new(half as u32 + 3, sb.size.height + 4)),
+            4 => Rectangle::new(Point::new(s.x.min(e.x) - half - 3, s.y.min(e.y) - 2), Size::new(half as u32 + 3, sb.size.height + 4)),
+            _ => Rectangle::new(sb.top_left + Point::new((sb.size.width / 3) as i32, (sb.size.height / 3) as i32), Size::new(sb.size.width / 2, sb.size.height / 2)),
+        };
+        let mut t = NativeT::<Rgb888>::with_box(tb);
+        t.0.log = false;
+        l.into_styled(style).draw(&mut t).map_err(|e| Fail { sig: "thick:draw_error".into(), detail: format!("{:?}", e) })?;
+        let drawn: BTreeSet<(i32, i32)> = t.0.map.keys().copied().collect();
+        if drawn != set {
+            let missing = set.difference(&drawn).next();
+            let extra = drawn.difference(&set).next();
+            return fail("thick:draw_vs_pixels", format!("draw() onto a target that reports the bounding box {:?} paints {} points, pixels() yields {} (width {}); first point only in pixels(): {:?}, only drawn: {:?}", tb, drawn.len(), set.len(), w, missing, extra));
+        }
+    }
     for q in thin {
         ensure!(set.contains(&(q.x, q.y)), "thick:thin_line_missing", "thin line point {:?} is not part of the stroked line of width {}", q, w);
     }
